@@ -135,10 +135,32 @@ impl SegmentLogWriter {
             let batch_bytes = batch_to_write.bytes;
             let slices = [IoSlice::new(&header), IoSlice::new(&batch_bytes)];
 
-            file.write_vectored(&slices)
+            let written = file
+                .write_vectored(&slices)
                 .await
                 .with_error_context(|error| {
                     format!("Failed to log to file: {}. {error}", self.file_path)
+                })
+                .map_err(|_| IggyError::CannotWriteToFile)?;
+
+            // A vectored write may be partial (tokio buffers at most 2 MiB per call): write the rest,
+            // then wait until the buffered data has reached the file before its size is published.
+            let header_rest = header.get(written..).unwrap_or_default();
+            let batch_rest = batch_bytes
+                .get(written.saturating_sub(header.len())..)
+                .unwrap_or_default();
+            for rest in [header_rest, batch_rest] {
+                file.write_all(rest)
+                    .await
+                    .with_error_context(|error| {
+                        format!("Failed to log to file: {}. {error}", self.file_path)
+                    })
+                    .map_err(|_| IggyError::CannotWriteToFile)?;
+            }
+            file.flush()
+                .await
+                .with_error_context(|error| {
+                    format!("Failed to flush log file: {}. {error}", self.file_path)
                 })
                 .map_err(|_| IggyError::CannotWriteToFile)?;
 
